@@ -67,4 +67,22 @@ def statusAt (s : Site) (raised : Bool) : Nat :=
 
 def serveHttp (s : Site) (raised : Bool) : Resp := setHttpStatus (statusAt s raised)
 
+/-! ## Response caps (`max_response_bytes` / `max_externalized_response_bytes`) on the unary HTTP path
+
+`_run_unary_sync` writes the response (logs, then the result batch or the EXCEPTION batch of the implementation's error)
+and AFTERWARDS `_enforce_response_budgets` may discard that body and answer a fresh cap error instead.  Which body the
+client gets: -/
+
+inductive Carried where
+  | result        -- the method's result batch
+  | implError     -- the EXCEPTION batch written for the exception the implementation raised
+  | capError      -- "HTTP body exceeds max_response_bytes …" (RuntimeError) replacing whatever was written
+deriving Repr, DecidableEq
+
+/-- `overCap` = the body as first written is larger than a configured cap -/
+def unaryBody (raised overCap : Bool) : Carried :=
+  if raised then
+    (if unaryBudgetOnlyOnSuccess then .implError else if overCap then .capError else .implError)
+  else if overCap then .capError else .result
+
 end VgiVerif.C07
